@@ -24,18 +24,39 @@ def _entry(kind: int):
     return None
 
 
+class _Budget(Exception):
+    pass
+
+
+class _CountingTable(dict):
+    """A reference table that gives up after more look-ups than any terminating resolution can need."""
+
+    def __init__(self, *a, **k):
+        super().__init__(*a, **k)
+        self.lookups = 0
+
+    def get(self, key, default=None):
+        self.lookups += 1
+        if self.lookups > 12:
+            raise _Budget()
+        return super().get(key, default)
+
+
 def resolve_chain(start: int, t0: int, t1: int, t2: int) -> bool:
     """
     pre: 0 <= start <= 5 and 0 <= t0 <= 5 and 0 <= t1 <= 5 and 0 <= t2 <= 5
     post: _
     """
-    table = {}
+    table = _CountingTable()
     kinds = [t0, t1, t2]
     for i in range(3):
         e = _entry(kinds[i])
         if e is not None:
             table[NAMES[i]] = e
-    res = _resolve_reference(_entry(start), table)
+    try:
+        res = _resolve_reference(_entry(start), table)
+    except _Budget:
+        return False  # more look-ups than entries: the resolution does not terminate on this (cyclic) table
     # oracle: follow the chain by hand
     cur = start
     steps = 0
